@@ -147,7 +147,63 @@ var c06TemplateTags = map[string]string{
 }
 var c06TemplateTagNames = []string{"openblock", "closeblock", "openvariable", "closevariable", "openbrace", "closebrace", "opencomment", "closecomment"}
 
+// c06WsCtl: a delimiter with `-` markers between two texts. A marker trims the whitespace (" \n\r\t") of the text it
+// touches and nothing else: a comment / verbatim block further away, and the text behind it, keep every byte.
+func c06WsCtl(r *Rng) c06Frag {
+	ws := func() string {
+		return r.Pick([]string{"", " ", "  ", "\n", " \n\t ", "\r\n", "\t"})
+	}
+	const cut = " \n\r\t"
+	t1 := strings.TrimRight(c06RandText(r, 6), "{") + r.Pick([]string{"a", "Z", "}", "-", "é"}) + ws()
+	t2 := ws() + r.Pick([]string{"b", "1", "%", "-", "日"}) + strings.TrimRight(c06RandText(r, 6), "{")
+	type core struct {
+		src, out string
+		l, rt    bool
+	}
+	cores := []core{{"{{- v }}", "val", true, false}, {"{{ v -}}", "val", false, true}, {"{{- v -}}", "val", true, true}, {"{{- n + 1 -}}", "8", true, true},
+		{"{%- if t %}y{% endif -%}", "y", true, true}, {"{%- if t -%} y {%- endif %}", "y", true, false}, {"{% if t -%}\n y \n{%- endif -%}", "y", false, true},
+		{"{%- for i in l -%} {{ i }} {%- endfor -%}", "123", true, true}, {"{%- templatetag openbrace -%}", "{", true, true}}
+	k := cores[r.Intn(len(cores))]
+	w1, w2 := t1, t2
+	if k.l {
+		w1 = strings.TrimRight(t1, cut)
+	}
+	if k.rt {
+		w2 = strings.TrimLeft(t2, cut)
+	}
+	src, want := t1+k.src+t2, w1+k.out+w2
+	// something the lexer swallows without a token (or a verbatim body) right behind / before the touched text,
+	// followed / preceded by text that starts / ends with whitespace
+	if r.Chance(60) {
+		switch r.Intn(3) {
+		case 0:
+			tail := r.Pick([]string{" ", "  ", "\n", "\t "}) + "t" + ws()
+			src, want = src+"{# c #}"+tail, want+tail
+		case 1:
+			b := r.Pick([]string{" ", "  ", "\n", "\t "}) + r.Pick([]string{"{{ raw }}", "x", "{% if %}", ""}) + ws()
+			src, want = src+"{% verbatim %}"+b+"{% endverbatim %}", want+b
+		default:
+			tail := ws() + "t"
+			src, want = src+"{#{{ boom() }}#}{# #}"+tail, want+tail
+		}
+	}
+	if r.Chance(60) {
+		switch r.Intn(2) {
+		case 0:
+			head := ws() + "h" + r.Pick([]string{" ", "  ", "\n", "\t "})
+			src, want = head+"{# c #}"+src, head+want
+		default:
+			b := ws() + r.Pick([]string{"{{ raw }}", "x", "-%}", ""}) + r.Pick([]string{" ", "  ", "\n", "\t "})
+			src, want = "{% verbatim %}"+b+"{% endverbatim %}"+src, b+want
+		}
+	}
+	return c06Frag{"wsctl", src, want, true}
+}
+
 func c06GenFrag(r *Rng) c06Frag {
+	if r.Chance(8) {
+		return c06WsCtl(r)
+	}
 	switch r.Intn(9) {
 	case 0, 1, 2:
 		t := c06RandText(r, 12)
@@ -305,7 +361,7 @@ func c06Run(c *C) {
 		// blocks, {# #} comments, variables) renders the same with the options switched on
 		noBlockTag := true
 		for _, f := range frags {
-			if f.kind == "commenttag" || f.kind == "templatetag" || f.kind == "tagblock" {
+			if f.kind == "commenttag" || f.kind == "templatetag" || f.kind == "tagblock" || f.kind == "wsctl" {
 				noBlockTag = false
 			}
 		}
